@@ -13,7 +13,7 @@ Emits GenPlot.v with  Definition desc : Plot.pdesc := {| ... |}  holding
   D_records_over  what the record list iterates over ("triangle" = the cells in order)
 
 and checks (normalised text, insensitive to parameter / local renaming, comments, docstrings) that
-_safe_apply_metric, _calculate_field_summary and FieldSummary.__post_init__ have the shape the model
+_safe_apply_metric, _calculate_field_summary, FieldSummary.__post_init__ and FieldSummary.dict have the shape the model
 assumes, that the rows are zipped as (cell, prev, next) = zip(row, [None, *row[:-1]], [*row[1:], None])
 and that every record is {**_core_plot_data(cell), ..., **field_summaries[cell]}.
 Anything else raises Unsupported.
@@ -102,6 +102,11 @@ EXPECT = {
         "if p0.sd:\n    p0.is_forecast = True"),
 }
 
+EXPECT["dict"] = (
+    "if p0.mean is None:\n    return {}\n"
+    "return {**p0.__dict__, 'tooltip': p0.tooltip(p2), 'snake_case_field': p0.snake_case_field, 'unit': p2, "
+    "'is_forecast': p0.is_forecast}")
+
 STATS = {"mean": "SMean", "median": "SMedian", "std": "SStd", "min": "SMin", "max": "SMax"}
 
 
@@ -166,6 +171,9 @@ def t_field_summary(tree):
     pi = find(cls.body, ast.FunctionDef, "__post_init__", "FieldSummary.__post_init__")
     if normalised(pi) != EXPECT["__post_init__"]:
         fail("FieldSummary.__post_init__", pi, "body changed")
+    dm = find(cls.body, ast.FunctionDef, "dict", "FieldSummary.dict")
+    if normalised(dm) != EXPECT["dict"]:
+        fail("FieldSummary.dict", dm, "body changed (a summary is dropped only when mean is None)")
     return fields, probs, args
 
 
